@@ -126,8 +126,25 @@ fn check_calendar_date(y: i32, mo: u8, da: u8, h: u8, mi: u8, s: u8) -> Result<(
     let date = time::Date::from_calendar_date(y, month, da).map_err(|e| format!("harness: {e}"))?;
     let tm = time::Time::from_hms(h, mi, s).map_err(|e| format!("harness: {e}"))?;
     let odt = time::PrimitiveDateTime::new(date, tm).assume_utc();
-    let r = crate::util::catch(|| DateTime::try_from(odt)).map_err(|p| format!("try_from({odt}) panicked: {p}"))?;
     let in_range = (1980..=2107).contains(&y);
+    // the same instant with a sub-second part: accepted exactly when the plain second is, same fields
+    for nanos in [1u32, 500_000_000, 999_999_999] {
+        let tn = time::Time::from_hms_nano(h, mi, s, nanos).map_err(|e| format!("harness: {e}"))?;
+        let on = time::PrimitiveDateTime::new(date, tn).assume_utc();
+        match crate::util::catch(|| DateTime::try_from(on)).map_err(|p| format!("try_from({on}) panicked: {p}"))? {
+            Ok(dt) => {
+                if !in_range {
+                    return Err(format!("try_from({on}) accepted a year outside 1980..=2107"));
+                }
+                if (dt.year() as i32, dt.month(), dt.day(), dt.hour(), dt.minute(), dt.second()) != (y, mo, da, h, mi, s) {
+                    return Err(format!("try_from({on}) fields differ"));
+                }
+            }
+            Err(_) if in_range => return Err(format!("try_from({on}) rejected a time inside {y} (sub-second part {nanos} ns)")),
+            Err(_) => {}
+        }
+    }
+    let r = crate::util::catch(|| DateTime::try_from(odt)).map_err(|p| format!("try_from({odt}) panicked: {p}"))?;
     match r {
         Ok(dt) => {
             if !in_range {
